@@ -27,7 +27,7 @@ class C03(Spec):
     rule = ("worlds served by the loopback TLS simulator: status lines (HTTP/1.x, 3- and 4-digit codes, missing space, lower case, "
             "control characters), 0..3 Content-Type headers (parameters, odd casing and whitespace, LF-only line ends, foreign types, "
             "near-miss header names), bodies (object, array, string, number, null, truncated, trailing garbage, two values); redirect "
-            "graphs: chains of 0..25 hops, cycles, relative / absolute / scheme-relative / http: Locations, missing or duplicate "
+            "graphs: chains of 0..25 hops, cycles, relative / absolute / scheme-relative / http: Locations, Locations and typed URLs with another scheme (http, ftp, wss, gemini) in front of a host:port that answers over TLS, missing or duplicate "
             "Location, cross-host hops; fetch sequences of <= 12 URLs with repeats, run in separate harness processes with cache "
             "sizes 1, 2, 3 and 128. Compared with Jtp.get: document, reported source and the exact sequence of requests the "
             "servers received. non-trivial = at least one redirect was followed or a response was rejected for its headers/body.")
@@ -87,10 +87,15 @@ class C03(Spec):
                     bad = "http://" + w.canary() + "/plain"
                     w.u(bad)
                     hdrs = ["Location: " + bad]
-                elif r < 0.2:
+                elif r < 0.22:
+                    # a target that is not https although its host:port WOULD answer over TLS with a document: the chain ends in an error
+                    bad = rng.choice(["http", "ftp", "wss", "gemini", "httpss"]) + target[len("https"):]
+                    w.u(bad)
+                    hdrs = ["Location: " + bad]
+                elif r < 0.24:
                     w.u("%zz")
                     hdrs = ["Location: %zz"]
-                elif r < 0.27:
+                elif r < 0.31:
                     # headers whose NAME merely ends in "location": not the Location header
                     decoy = w.url(0, "/decoy")
                     w.u(decoy)
@@ -117,6 +122,9 @@ class C03(Spec):
         if rng.random() < 0.1:
             u = "http://" + w.canary() + "/x"
             w.fetch(u)
+        if rng.random() < 0.1:
+            # the same with an explicit port behind which a TLS server answers
+            w.fetch(rng.choice(["http", "ftp", "gemini"]) + rng.choice(urls)[len("https"):])
         if rng.random() < 0.2:
             # a webfinger lookup (tolerated types jrd+json / json, same cache): sometimes the same URL is also fetched as a document
             import c04
